@@ -145,6 +145,9 @@ type mon struct {
 	n    int64
 	g    kit.Gauge
 	plan any // the case parameters, part of every witness
+	// class of the configuration, appended to the cap-exceeded key (extension families: a worker
+	// option other than WithWorkers(n >= 1)); empty for the plain "capacity n" configurations
+	class string
 
 	enters   atomic.Int64
 	sat      atomic.Int64 // enters that saw holders == n
@@ -201,7 +204,11 @@ func (m *mon) enter(a *kit.Actor, who string) {
 		m.overSeen = true
 		m.mu.Unlock()
 		if first {
-			m.viol("cap-exceeded", fmt.Sprintf("%d holders inside the guarded region of a %s with capacity %d (seen at the increment by holder %s)",
+			kind := "cap-exceeded"
+			if m.class != "" {
+				kind += "/" + m.class
+			}
+			m.viol(kind, fmt.Sprintf("%d holders inside the guarded region of a %s with capacity %d (seen at the increment by holder %s)",
 				v, m.prim, m.n, who), map[string]any{"holders_inside": v, "holder": who})
 		}
 	} else if v == m.n {
@@ -459,6 +466,13 @@ func TestVerifC05(t *testing.T) {
 		kit.Run(t, prop, "maxconns-direct", kit.N(3000, 72000), maxConnsDirectCase)
 		kit.Run(t, prop, "maxconns-httptest", kit.N(500, 10000), maxConnsHTTPTestCase)
 		kit.Run(t, prop, "maxconns-restserver", kit.N(128, 2000), maxConnsRestServerCase)
+		// extension families (ext_test.go)
+		kit.Run(t, prop, "overreturn-race", kit.N(1600, 40000), overReturnRaceCase)
+		kit.Run(t, prop, "fx-options", kit.N(800, 20000), fxOptsCase)
+		kit.Run(t, prop, "mr-options", kit.N(800, 20000), mrOptsCase)
+		kit.Run(t, prop, "maxconns-unlimited", kit.N(300, 6000), maxConnsUnlimitedCase)
+		kit.Run(t, prop, "stablerunner", kit.N(120, 2400), stableRunnerCase)
+		kit.Run(t, prop, "syncx-misc", kit.N(120, 2400), syncxMiscCase)
 	}
 
 	kit.End()
